@@ -688,7 +688,7 @@ func (e *Engine) owner(fn *ssa.Function) bool {
 				return e.cfg.Owners[tp]
 			}
 		}
-		return e.cfg.Owners[core.RelPkg(p)+".*func"]
+		return e.cfg.Owners[core.RelPkg(p)+".*func"] || higherOrder(fn)
 	}
 	return e.cfg.Owners[core.RelPkg(p)+"."+name]
 }
@@ -784,6 +784,10 @@ func (e *Engine) call(fi *fnInfo, st *State, in *ssa.Call) []*State {
 		setRes(st, top)
 		return []*State{st}
 	}
+	if e.pureHelper(callee) {
+		// a small pure helper of the package (l.tmpl.enabled(), isTagOpen(c, next)): analysed like the lexer's own code
+		return e.callKnown(fi, st, in, callee)
+	}
 	if pi := e.bytePredicate(callee); pi.table != nil && pi.param < len(cc.Args) {
 		// a pure predicate over one byte: treated like a [256]bool table indexed by the argument
 		arg := cc.Args[pi.param]
@@ -812,9 +816,8 @@ func (e *Engine) call(fi *fnInfo, st *State, in *ssa.Call) []*State {
 	case "ToLower":
 		// in-place case folding of (part of) the current lexeme
 		if a := e.eval(st, cc.Args[0]); a.k == vSlice {
-			why, allowed := inPlaceAllowed[fnLabel(fi.fn)+" ToLower"]
-			e.check(st, "R-INPLACE", fnLabel(fi.fn)+" lower-cases input bytes in place", in.Pos(), allowed, "parse.ToLower is applied directly to a slice of the input buffer outside the audited sites (tag names, attribute names, end tags): the caller's input and the returned tokens are altered; copy first (parse.Copy)")
-			_ = why
+			// judged where the token is returned (checkReturn): only tag and attribute names may be case-folded in place
+			st.wrote |= wroteFold
 			e.staleBehind(st)
 			setRes(st, a)
 		} else {
@@ -824,15 +827,6 @@ func (e *Engine) call(fi *fnInfo, st *State, in *ssa.Call) []*State {
 		setRes(st, top)
 	}
 	return []*State{st}
-}
-
-// Sites that may rewrite input bytes in place (property C02: only the case of tag and
-// attribute names in HTML and tab/newline -> space inside quoted XML attribute values).
-var inPlaceAllowed = map[string]string{
-	"(*html.Lexer).shiftStartTag ToLower":  "tag name is lower-cased in place",
-	"(*html.Lexer).shiftAttribute ToLower": "attribute name is lower-cased in place",
-	"(*html.Lexer).shiftEndTag ToLower":    "end tag token is lower-cased in place",
-	"(*xml.Lexer).shiftAttribute store":    "tab/newline/CR inside a quoted attribute value becomes a space",
 }
 
 // Scanners that deliberately leave the cursor where the scan failed.
@@ -1624,6 +1618,8 @@ func absSig(v AbsVal) string {
 		return fmt.Sprintf("k%d:%s", v.k, v.atom)
 	case vIdx:
 		return fmt.Sprintf("i%d-%d/%d/%v%x/%v", v.ilo, v.ihi, v.safe, v.coverOK, v.cover, v.back)
+	case vStrSet:
+		return fmt.Sprintf("S%q", v.strs)
 	}
 	// marks and other position-dependent values are not passed between the analysed functions;
 	// make the signature unique so that such a call is never shared
@@ -1704,6 +1700,7 @@ func (e *Engine) applySummary(s *State, x summary, usesL bool) {
 		s.errMsg = ex.errMsg
 	}
 	s.stale = ex.stale
+	s.wrote |= ex.wrote
 	s.lex, s.lexKnown = ex.lex, ex.lexKnown
 	if moved {
 		s.lastShift = ex.lastShift
